@@ -105,7 +105,7 @@ def run(chk, prog):
     pops = [bb for bb, t in F.calls() if callee_short(t) == 'StoryState::pop_evaluation_stack']
     pushes = [bb for bb, t in F.calls() if callee_short(t) == 'StoryState::push_evaluation_stack']
     if chk.anchor(R2, 'pop_evaluation_stack loop in ' + F.short, pops) and chk.anchor(R2, 'reverse() of the arguments', rev):
-        w = g.path([pops[0]], lambda b: b == call_bb, avoid=rev)
+        w = gf.feasible_path([pops[0]], lambda b: b == call_bb, avoid=rev)
         chk.decide(R2, chk.key(R2, F.short, 'reverse-before-call'), w is None,
                    'every path from the pop loop to CALL passes arguments.reverse()',
                    'a path from the argument-pop loop to the host call skips arguments.reverse(): the host receives the '
@@ -162,8 +162,8 @@ def run(chk, prog):
             if d.get('bound') is False and d.get('fallbacks') is False:
                 vals_ret.append(r)
     # on bound=F & fallbacks=F the value returned must be Err: check that an Err aggregate dominates... simplified:
-    err_blocks = [bb for bb, si, s in F.stmts() if s['k'] == 'assign' and s['pl']['l'] == 0 and 'p' not in s['pl']
-                  and s['rv']['k'] == 'agg' and s['rv'].get('var') == 'Err']
+    err_blocks = [bb for bb, si, s in F.stmts() if s['k'] == 'assign' and (s['pl']['l'] == 0 or s['pl']['l'] in F.ret_locals)
+                  and 'p' not in s['pl'] and s['rv']['k'] == 'agg' and s['rv'].get('var') == 'Err']
     unb = [bb for bb in err_blocks if any(v.get('bound') is False for v in gf.valuations_at(bb, ['bound']))]
     chk.decide(R3, chk.key(R3, F.short, 'unbound-is-err'), len(unb) >= 2,
                'unbound externals end in Err exits (%d)' % len(unb),
